@@ -52,11 +52,20 @@ SweepVerdict(e, c) ==
              b0  == CHOOSE b \in c[2][bad][1]..c[2][bad][2] : SweepMask(e, c[1], b) # c[2][bad][3]
          IN [a |-> c[1], b |-> b0, mask |-> SweepMask(e, c[1], b0)]
 
+(* ---- advisory (round 3): the signature facts the driver reports per ordered type pair.  The property statement does  *)
+(* not mention noexcept or the exact return type; the header documents both (constexpr bool ... noexcept), std::cmp_*    *)
+(* are specified so.  A difference is printed as DRIFT once per table line and never changes the verdict.                *)
+SigAll == 4095
+SigNote(e) == IF "sig" \in DOMAIN e /\ e.sig # SigAll /\ j = 1
+                THEN PrintT(<<"DRIFT", "ADVISORY signature: not all six cmp_* calls are noexcept and of type bool for some ordered pair of operand types; sig bits 1..32 = noexcept(eq ne lt gt le ge), 64..2048 = returns exactly bool", e.sig>>)
+                ELSE TRUE
+
 TInit == l = 1 /\ j = 1
 
 TNext ==
     /\ l <= Len(Table)
     /\ LET e == Table[l] IN
+        /\ SigNote(e)
         /\ IF e.op = "P"
              THEN LET v == Verdict(e, e.c[j]) IN
                   IF "mask" \in DOMAIN v /\ e.c[j][3] = v.mask
